@@ -5,7 +5,9 @@
    does not terminate on every graph, or a panic( call appears in printSequenceDiagramStatements. *)
 From Coq Require Import List Bool NArith Arith String.
 Import ListNotations.
-Require Import Verif.Cmds.Walk Verif.Cmds.Model Verif.Cmds.ModelProps Verif.Gen.CmdGuards.
+Require Import Verif.Seq.Fmt Verif.Seq.FmtProps.
+Require Import Verif.Cmds.Walk Verif.Cmds.Model Verif.Cmds.ModelProps Verif.Cmds.FmtModel Verif.Cmds.FmtModelProps
+               Verif.Cmds.ImpModel Verif.Cmds.ImpModelProps Verif.Gen.CmdGuards.
 
 Lemma guards_ok : all_guarded current = true.
 Proof. reflexivity. Qed.
@@ -20,7 +22,11 @@ Proof. reflexivity. Qed.
    has logged the evaluation stack, with status 1 - and from the debugger's quit command *)
 Definition exit_sites := filter (fun s => String.eqb (snd (fst s)) "exit") abort_sites.
 Definition in_eval (fn:string) : bool := String.prefix "eval." fn.
-Lemma only_main_exits : map (fun s => fst (fst s)) (filter (fun s => negb (in_eval (fst (fst s)))) exit_sites) = ["sysl.main"%string].
+Definition in_importer (fn:string) : bool := String.prefix "importer." fn.
+Lemma only_main_exits : map (fun s => fst (fst s)) (filter (fun s => negb (in_eval (fst (fst s))) && negb (in_importer (fst (fst s)))) exit_sites) = ["sysl.main"%string].
+Proof. reflexivity. Qed.
+(* pkg/importer (round 3, second pass): the text writer gives up with a Fatal log call when the output cannot be written *)
+Lemma importer_exit_sites : map (fun s => fst (fst s)) (filter (fun s => in_importer (fst (fst s))) exit_sites) = ["importer.writer.mustWrite"%string].
 Proof. reflexivity. Qed.
 Lemma eval_exit_sites : map (fun s => fst (fst s)) (filter (fun s => in_eval (fst (fst s))) exit_sites)
                         = ["eval.repl.handleInput"; "eval.exprEval.handlePanic"]%string.
@@ -43,7 +49,16 @@ Definition modelled_functions : list string :=
    "database.ScriptView.ProcessModSysls"; "database.findAddedDeletedRetainedTables"; "database.ScriptView.generateDatabaseScriptModify";
    "database.ScriptView.writeCreateSQLForATable"; "database.ScriptView.writeModifySQLForATable";
    "sysl.templateCmd.Execute"; "transforms.NewWorker"; "transforms.templated.Apply"; "transforms.semantic.Apply";
-   "sysl.testRigCmd.Execute"; "testrig.GenerateRig"; "testrig.appNeedsDB"; "testrig.readUserData"]%string.
+   "sysl.testRigCmd.Execute"; "testrig.GenerateRig"; "testrig.appNeedsDB"; "testrig.readUserData";
+   (* round 3, second pass. FormatParser.Expansions is modelled too but DOES call panic( - three sites, each an explicit
+      outcome of Seq/Fmt.v - so it cannot be listed here *)
+   "cmdutils.FormatParser.Check"; "cmdutils.FormatParser.Parse"; "cmdutils.FormatParser.Eat"; "cmdutils.FormatParser.Pop";
+   "sequencediagram.checkFormats"; "sequencediagram.ConstructFormatParser"; "sequencediagram.DoConstructSequenceDiagrams";
+   "integrationdiagram.getAppfmtAttrOrDefault"; "integrationdiagram.getEpfmtAttr"; "integrationdiagram.getTitleFormat";
+   "importer.OpenAPI3Importer.pushName"; "importer.OpenAPI3Importer.popName"; "importer.OpenAPI3Importer.loadTypeSchema";
+   "importer.OpenAPI3Importer.buildField"; "importer.OpenAPI3Importer.buildParams"; "importer.OpenAPI3Importer.buildRequests";
+   "importer.OpenAPI3Importer.buildResponses"; "importer.OpenAPI3Importer.fieldForMediaType"; "importer.OpenAPI3Importer.convertSpec";
+   "importer.OpenAPI3Importer.isCircular"]%string.
 Lemma modelled_functions_do_not_panic :
   filter (fun s => existsb (String.eqb (fst (fst s))) modelled_functions) abort_sites = [].
 Proof. reflexivity. Qed.
@@ -51,7 +66,9 @@ Proof. reflexivity. Qed.
 (* Hang side. Every function of the packages the commands reach that calls itself directly (Gen table
    recursive_functions, regenerated each run) is either covered by a termination theorem of this development or named
    here as NOT proved; a new direct recursion in those packages makes this lemma fail.
-   proved:   ProcessCalls (structural over the statement tree; the re-entry through its handler is the pass-through walk:
+   proved:   FormatParser.Expansions (fmt_expansions_terminate below: fuel 1 + the length of the format string, for the
+             byte-level parser of Seq/Fmt.v, of which the eager discipline read from the source is an instance),
+             ProcessCalls (structural over the statement tree; the re-entry through its handler is the pass-through walk:
              ints_fine), processTableDepth (db_order_fine), the two mermaid printers (mseq_fine, mint_fine). The mutual
              recursions visitEndpoint -> visitStatment -> visitCall -> visitEndpoint (sd_fine), generate*DiagramHelper <->
              print*Statements and WalkPassthrough <-> ProcessExcludeAndPassthrough are the same walks.
@@ -59,14 +76,18 @@ Proof. reflexivity. Qed.
              (not modelled), and type-reference resolution in the exporters (observed by the CPU-limit oracle only). *)
 Definition proved_recursions : list string :=
   ["integrationdiagram.ProcessCalls"; "database.processTableDepth"; "sequencediagram.printSequenceDiagramStatements";
-   "integrationdiagram.printIntegrationDiagramStatements"]%string.
+   "integrationdiagram.printIntegrationDiagramStatements"; "cmdutils.FormatParser.Expansions"]%string.
 Definition unproved_recursions : list string :=
-  ["sysl.removeSourceContextImpl"; "sysl.Serialize"; "cmdutils.FormatParser.Expansions"; "cmdutils.GetReturnPayload";
+  ["sysl.removeSourceContextImpl"; "sysl.Serialize"; "cmdutils.GetReturnPayload";
    "exporter.OpenAPI3Exporter.exportType"; "integrationdiagram.printIntegrationDiagramStatementsTargetedApp";
    "datamodeldiagram.getRelatedTypes"; "endpointanalysisdiagram.printEndpointAnalysisStatements";
    "syslwrapper.ReturnStatements"; "syslwrapper.AppMapper.resolveType"; "syslwrapper.AppMapper.MapType"; "syslwrapper.MakeType"; "syslutil.GetTypeDetail";
    "eval.attributeToValue"; "eval.exprEval.eval"; "eval.isValueExpectedType"; "eval.reflectToValue"; "eval.UnaryString";
-   "validate.Validator.compareTuple"; "validate.Validator.validateTfmReturn"; "ebnfparser.WalkerOps.WalkTermNode"]%string.
+   "validate.Validator.compareTuple"; "validate.Validator.validateTfmReturn"; "ebnfparser.WalkerOps.WalkTermNode";
+   (* pkg/importer: loadTypeSchema is modelled (ImpModel.load) as a structural recursion over the document tree; that it
+      also ends on documents whose $refs form a cycle rests on the refMap test and is NOT proved *)
+   "importer.mapOpenAPITypeAndFormatToType"; "importer.OpenAPI3Importer.typeNameFromSchemaRef"; "importer.OpenAPI3Importer.loadTypeSchema";
+   "importer.exampleAttrStr"; "importer.getSyslTypeName"; "importer.getAllElementsBelow"]%string.
 Lemma recursions_accounted :
   forallb (fun f => existsb (String.eqb f) (proved_recursions ++ unproved_recursions)) recursive_functions = true.
 Proof. reflexivity. Qed.
@@ -80,3 +101,49 @@ Proof. reflexivity. Qed.
 
 Theorem current_cmd_total m rend fuel c : (fuel_bound m + cmd_extra c <= fuel)%nat -> fine (run current m rend fuel c) = true.
 Proof. apply cmd_total, guards_ok. Qed.
+
+(* ---- round 3, second pass: the error paths ---- *)
+(* the format strings a project application supplies (epfmt / appfmt / seqtitle / title): the parser compiles every search
+   pattern whatever the values are, Check exists, and both commands that read such strings try them first *)
+Lemma fmt_guards_ok : fmt_guarded fmt_current = true.
+Proof. reflexivity. Qed.
+Theorem current_fmt_total u rx fmts uses : fine (fmt_cmd fmt_current u rx fmts uses) = true.
+Proof. apply fmt_cmd_total, fmt_guards_ok. Qed.
+(* Expansions terminates: the eager parser is Seq.Fmt.parse, which never runs out of fuel 1 + |format| *)
+Theorem fmt_expansions_terminate rx self A : parse_d (negb (g_fmt_eager fmt_current)) rx self A <> PFuel.
+Proof. change (negb (g_fmt_eager fmt_current)) with false. rewrite parse_d_eager. apply fmt_total. Qed.
+
+(* the Swagger / OpenAPI 2 importer puts its name stack back on every return of buildField and buildResponses tests the
+   error before it reads the field *)
+Lemma imp_guards_ok : imp_guarded imp_current = true.
+Proof. reflexivity. Qed.
+Theorem current_import_total es d : fine (import_doc imp_current es d) = true.
+Proof. apply import_total, imp_guards_ok. Qed.
+
+(* ---- indexes into a call's result with an integer literal, `f(..)[k]` (Gen table literal_index_sites, regenerated each run).
+   strings.Split*(..)[0] never fails and needs no review. Every other site of the reached packages is listed here with the
+   reason it is in range - or named as NOT guarded; a new one (or one more in a listed function) makes the lemma fail.
+     VarManagerForEPA            strings.Split(name, " : ")[1]: every caller builds name as app + " : " + endpoint          (by construction)
+     DrawSystemView              SplitAppNameParts(app)[0]: strings.Split never returns an empty slice                       (in range)
+     populateEndpoint            strings.Split(path, " ")[1], twice: behind the word-count test (g_swagger_rest)               (guarded, modelled)
+     GenerateOpenAPI3            strings.Split(v.Path, " ")[1]: inside `if len(epPath) > 1`                                   (guarded)
+     AppMapper.MapType           pk.GetAttrName()[0]: inside `len(pk.GetAttrName()) > 0`                                      (guarded)
+     convertTableRef             GetContext().GetAppname().GetPart()[0], GetRef().GetPath()[0]: NOT guarded; in range for a
+                                 module compiled from source (the parser gives every reference a context and a path);
+                                 exercised by the table shapes x export -f openapi3 / diagram -d                              (observed only)
+     HasSameType                 GetPart()[0] / GetPath()[0] behind `!= nil` tests only: NOT guarded against an empty list;
+                                 called by the parser's view type inference only                                              (observed only)
+     typeNameFromSchemaRef       Type.Slice()[0]: once inside `Type.Is(..)` (non-empty), once behind a len test               (guarded)
+     loadTypeSchema              Type.Slice()[0] behind a len test                                                            (guarded)
+     endpointToValue             Cond.GetStmt()[0] / Group.GetStmt()[0]: NOT guarded; the grammar gives every block at least
+                                 one statement                                                                                (observed only)
+     compareOneOf, getTypeName   GetRef().GetPath()[0] of a reference in a codegen grammar / transform: NOT guarded            (observed only) *)
+Definition reviewed_index_sites : list (string * N) :=
+  [("integrationdiagram.IntsDiagramVisitor.VarManagerForEPA", 1%N); ("integrationdiagram.IntsDiagramVisitor.DrawSystemView", 2%N);
+   ("exporter.EndpointExporter.populateEndpoint", 2%N); ("exporter.OpenAPI3Exporter.GenerateOpenAPI3", 1%N);
+   ("syslwrapper.AppMapper.MapType", 1%N); ("syslwrapper.convertTableRef", 2%N); ("syslutil.HasSameType", 4%N);
+   ("importer.OpenAPI3Importer.typeNameFromSchemaRef", 2%N); ("importer.OpenAPI3Importer.loadTypeSchema", 1%N);
+   ("eval.endpointToValue", 2%N); ("validate.Validator.compareOneOf", 1%N); ("validate.getTypeName", 3%N)]%string.
+Lemma index_sites_reviewed :
+  map (fun s => (fst (fst s), snd s)) (filter (fun s => negb (N.eqb (snd s) 0)) literal_index_sites) = reviewed_index_sites.
+Proof. reflexivity. Qed.
